@@ -11,6 +11,7 @@ import MTProofs.Graph
 import MTProofs.Select
 import MTProofs.MassBalance
 import MTProps.C02
+import MT.Main
 
 namespace MTProps.C11
 open MT MTProofs
@@ -107,6 +108,28 @@ theorem sweep_ignores_v (assort : Bool) (K : Nat) (nv : NetView) (hdir : nv.dire
   simp only [hdir, Bool.false_eq_true, ↓reduceIte]
 
 end
+
+/-- **the whole call is orientation-blind**: `factorize` on the reversed records returns exactly the same
+value — labels, factors, report — for every scalar type (`Float`: bit-identical) -/
+theorem undirected_reverse_factorize {α : Type} [Add α] [Sub α] [Mul α] [Div α] [LT α] [DecidableLT α] [MTExtra α]
+    (inp : Input β ω α) (starts' ends' : List β) (d : Nat → α)
+    (hdir : inp.directed = false)
+    (hrel : List.Forall₂ RevRel (inp.starts.zip inp.ends) (starts'.zip ends'))
+    (hlen : starts'.length = inp.starts.length) (hlen' : ends'.length = inp.ends.length)
+    (heq : inp.starts.length = inp.ends.length)
+    (hlab : firstApp (interleave starts' ends') = firstApp (interleave inp.starts inp.ends)) :
+    factorize { inp with starts := starts', ends := ends' } d = factorize inp d := by
+  obtain ⟨h1, h2⟩ := undirected_reverse_invariant inp.starts inp.ends starts' ends' inp.weights hrel hlen hlab
+  unfold factorize factorizeWith
+  have hs : (Input.shapes { inp with starts := starts', ends := ends' }) = inp.shapes := by
+    unfold Input.shapes
+    simp only [hlen, hlen', numVertices_eq starts' ends' (by omega), numVertices_eq inp.starts inp.ends heq, hlab]
+  simp only [hs]
+  cases hv : validate inp.shapes with
+  | error e => rfl
+  | ok p =>
+    simp only [bind, Except.bind, hdir]
+    rw [h2, h1]
 
 /-! ### symmetric affinity (over ℝ) -/
 
